@@ -3,8 +3,10 @@
 package c13
 
 import (
+	"bytes"
 	"encoding/json"
 	"fmt"
+	"github.com/DrmagicE/gmqtt/pkg/packets"
 	"strings"
 	"sync"
 	"time"
@@ -427,6 +429,7 @@ func (x *ctx) outbound(resume bool) error {
 	base := "o/" + x.id + "/"
 	var s *wire.Client
 	var err error
+	inflightBig, inflightFrom := "", 0
 	if resume {
 		exp := uint32(3600)
 		a1 := uint16(65535)
@@ -453,6 +456,27 @@ func (x *ctx) outbound(resume bool) error {
 		}
 		if err := first.Ping(step); err != nil {
 			return err
+		}
+		if m1 > 1000 && M != 0 {
+			// two messages stay IN FLIGHT on the first connection (delivered, never acknowledged): one that the second
+			// connection can take and one that is too large for it under any alias choice. Both belong to the session.
+			first.SetAutoAck(false)
+			t := base + "t2"
+			bigPl := t + "|inflight-big|" + strings.Repeat("z", int(M)+len(t)+20)
+			smallPl := t + "|inflight-small"
+			x.b.Srv.Publisher().Publish(&gmqtt.Message{Topic: t, Payload: []byte(bigPl), QoS: 1})
+			x.b.Srv.Publisher().Publish(&gmqtt.Message{Topic: t, Payload: []byte(smallPl), QoS: 1})
+			// (with max_inflight 1 only the first of the two is in flight, the other one waits in the queue)
+			if err := first.WaitPayload(bigPl, step); err != nil {
+				return fmt.Errorf("in-flight messages: %w", err)
+			}
+			if x.c.Cfg.MaxInflight > 1 {
+				if err := first.WaitPayload(smallPl, step); err != nil {
+					return fmt.Errorf("in-flight messages: %w", err)
+				}
+			}
+			inflightBig, inflightFrom = bigPl, x.b.Log.Len()
+			x.obs["outbound_inflight_at_resume"] += 2
 		}
 		from := x.b.Log.Len()
 		first.Disconnect(0, nil)
@@ -626,6 +650,28 @@ func (x *ctx) outbound(resume bool) error {
 			}
 		}
 	}
+	if inflightBig != "" {
+		sawSmall := false
+		for _, r := range s.Publishes() {
+			if strings.HasSuffix(string(r.P.Payload), "|inflight-small") {
+				sawSmall = true
+			}
+		}
+		if !sawSmall {
+			x.add("outbound.inflight_not_retransmitted", "the unacknowledged (or still queued) message that fits the new connection's Maximum Packet Size did not arrive after the resume")
+		}
+		if !got[inflightBig] { // an oversize retransmission is reported above
+			reported := false
+			for _, e := range x.b.Log.Events()[inflightFrom:] {
+				if e.Kind == "OnMsgDropped" && e.Client == x.id && e.Payload == inflightBig {
+					reported = true
+				}
+			}
+			if !reported {
+				x.add("outbound.inflight_drop_not_reported", "the unacknowledged message that is too large for the new connection was neither retransmitted nor reported dropped")
+			}
+		}
+	}
 	if !alive(s) {
 		x.add("outbound.dead", "connection did not stay up after oversize messages were dropped")
 	}
@@ -764,7 +810,94 @@ func serialAtTheLimit(r *monitor.Run) {
 	r.Nontrivial("serial-at-the-limit")
 }
 
+// aliasAtLengthBoundaries: a new topic alias adds three bytes of property to a PUBLISH. Where that pushes the property
+// length from one byte to two and the remaining length from two bytes to three, the packet grows by five. Messages are
+// built so that this happens, for a subscriber whose Maximum Packet Size lies 0..6 bytes above the size without alias:
+// whatever the broker decides about the alias, nothing larger than the declared maximum is sent, and a message that
+// fits without alias is delivered or reported dropped.
+func aliasAtLengthBoundaries(r *monitor.Run) {
+	b, err := broker.Start(broker.Options{Cfg: func(c *config.Config) { c.MQTT.MessageExpiry = 0 }})
+	if err != nil {
+		r.Inconclusive(err.Error())
+		return
+	}
+	defer b.Stop(step)
+	for slack := 0; slack <= 6; slack++ {
+		for propLen := 124; propLen <= 127; propLen++ {
+			topic := fmt.Sprintf("ab/%d/%d", slack, propLen)
+			// user property: 1 id + 2+len(k) + 2+len(v) bytes
+			k := "k"
+			v := strings.Repeat("v", propLen-1-2-len(k)-2)
+			mk := func(payload int) *mqttx.Packet {
+				return &mqttx.Packet{Type: mqttx.PUBLISH, Topic: topic, QoS: 1, PacketID: 1, Payload: bytes.Repeat([]byte("p"), payload), Props: &mqttx.Props{User: []mqttx.UserProp{{K: k, V: v}}}}
+			}
+			// remaining length 16383 exactly (two-byte varint at its maximum)
+			base := mqttx.Size(mk(0), mqttx.V5)
+			pl := 16383 + 3 - base
+			if pl < 0 {
+				continue
+			}
+			for mqttx.Size(mk(pl), mqttx.V5) > 16383+3 {
+				pl--
+			}
+			for mqttx.Size(mk(pl), mqttx.V5) < 16383+3 {
+				pl++
+			}
+			size := mqttx.Size(mk(pl), mqttx.V5)
+			M := uint32(size + slack)
+			A := uint16(4)
+			id := fmt.Sprintf("ab-%d-%d", slack, propLen)
+			c, err := wire.Dial(id, b.Addr, mqttx.V5)
+			if err != nil {
+				r.Inconclusive(err.Error())
+				return
+			}
+			if _, err := c.Connect(&mqttx.Packet{ClientID: id, CleanStart: true, Props: &mqttx.Props{MaxPacketSize: &M, TopicAliasMax: &A}}, step); err != nil {
+				r.Inconclusive(err.Error())
+				c.Close()
+				return
+			}
+			if _, err := c.Subscribe([]mqttx.Sub{{Filter: "ab/#", QoS: 1}}, 0, step); err != nil {
+				r.Inconclusive(err.Error())
+				c.Close()
+				return
+			}
+			from := b.Log.Len()
+			b.Srv.Publisher().Publish(&gmqtt.Message{Topic: topic, Payload: bytes.Repeat([]byte("p"), pl), QoS: 1, UserProperties: []packets.UserProperty{{K: []byte(k), V: []byte(v)}}})
+			b.Srv.Publisher().Publish(&gmqtt.Message{Topic: "ab/end", Payload: []byte("end"), QoS: 1})
+			err = c.WaitPayload("end", step)
+			r.Eval(1)
+			got := false
+			for _, rec := range c.Publishes() {
+				if uint32(rec.Size) > M {
+					r.Violation(fmt.Sprintf("outbound.oversize_at_length_boundary:excess=%d:slack=%d:aliased=%v", rec.Size-int(M), slack, rec.P.Props != nil && rec.P.Props.TopicAlias != nil), fmt.Sprintf("a PUBLISH of %d bytes was sent to a client whose Maximum Packet Size is %d (message of %d bytes without alias, property length %d, remaining length 16383: a new alias makes it 5 bytes longer)", rec.Size, M, size, propLen), nil)
+				}
+				if len(rec.P.Payload) == pl {
+					got = true
+				}
+			}
+			if err != nil {
+				r.Violation("outbound.dead_at_length_boundary", fmt.Sprintf("the connection did not deliver the small message that followed: %v (ctl %v)", err, c.Ctl()), nil)
+			} else if !got {
+				dropped := false
+				for _, e := range b.Log.Events()[from:] {
+					if e.Kind == "OnMsgDropped" && e.Client == id {
+						dropped = true
+					}
+				}
+				if !dropped {
+					r.Violation("outbound.missing_at_length_boundary", fmt.Sprintf("a message of %d bytes (limit %d) was neither delivered nor reported dropped", size, M), nil)
+				}
+			}
+			c.Close()
+			r.Count("outbound_alias_length_boundary_cases", 1)
+			r.Nontrivial(id)
+		}
+	}
+}
+
 func Run(r *monitor.Run) {
+	aliasAtLengthBoundaries(r)
 	serialAtTheLimit(r)
 	cs := allCases(r)
 	r.Parallel(len(cs), 16, func(i int) {
